@@ -39,6 +39,10 @@ class CtxMgrNone:
 
 # platform constants (POSIX; the Windows branches are not taken -- stated assumption)
 EXTERN_CONSTS = {"os.name": "posix", "os.sep": "/", "posixpath.sep": "/", "os.path.sep": "/", "errno.ENOENT": 2, "stat.S_IWRITE": 128, "stat.S_IREAD": 256, "stat.S_IEXEC": 64, "stat.S_IWUSR": 128, "stat.S_IXUSR": 64}
+# documented constants of the string module (values fixed by the language reference)
+import string as _string  # noqa: E402
+
+EXTERN_CONSTS.update({"string." + n: getattr(_string, n) for n in ("printable", "ascii_letters", "ascii_lowercase", "ascii_uppercase", "digits", "hexdigits", "octdigits", "punctuation", "whitespace")})
 
 
 EXTERN_SYMBOLIC: dict = {}  # dotted name -> Ty, filled in below (needs the type constructors)
@@ -598,6 +602,8 @@ class CallMixin:
             params[n] = v if (isinstance(v, SV) and v.ty == t) else self.coerce(v, t)
         if con.assumed:
             self.res.assumed_used.add(con.qualname)
+            for text in (con.assumes or []):
+                self.res.assumed_used.add(f"{con.qualname}: {text}")
         h0 = self.view(dict(self.st.heap), self.st.alloc)
         c0 = Ctx(self, params, h0, h0)
         if con.requires is not None:
